@@ -9,7 +9,7 @@ From SV Require Import KV.KvBase KV.KvLex KV.KvParse KV.KvSym KV.KvRoundtrip.
 From SV Require Import Fmt.VmfText Fmt.VmfTextProofs Fmt.VmfBlocks Fmt.VmfBlocksProofs Fmt.VmfFields Fmt.VmfFieldsProofs.
 From SV Require Import Fmt.VmfNum Fmt.VmfNumProofs Fmt.VmfGuard Fmt.VmfGuardProofs.
 From SV Require Import Fmt.VmfLite Fmt.VmfLiteProofs Fmt.VmfFlags Fmt.VmfFlagsProofs Fmt.VmfTok Fmt.VmfTokProofs Fmt.VmfPlane Fmt.VmfPlaneProofs.
-From SV Require Import Fmt.VmfIds Fmt.VmfIdsProofs.
+From SV Require Import Fmt.VmfIds Fmt.VmfIdsProofs Fmt.VmfTree Fmt.VmfTreeProofs.
 From SV Require Import Gen.VmfTemplates_gen Gen.VmfKeys_gen Gen.VmfDispSizes_gen Gen.VmfOrder_gen Gen.VmfProg_gen Gen.VmfFieldsCfg_gen Gen.VmfNumFmt_gen Gen.VmfLite_gen Gen.VmfFlags_gen.
 Import ListNotations.
 
@@ -335,3 +335,34 @@ Theorem c06_ordinary_manager_not_preserving : nid_ok ex_idman = false /\ id_get 
 Proof. exact idman_not_preserving. Qed.
 Example c06_null_manager_example : nid_ok ex_nullid = true /\ id_get ex_nullid true 0 = AKeep /\ id_get ex_nullid true (-1) = AOther.
 Proof. exact ex_nullid_ok. Qed.
+
+(** 15. The whole object tree (round 4): composition of the per-class tables over the containment tree
+    VMF > Entity > Solid > Side (the dispinfo lines belong to Side's table).  An object is a node with its class, one value
+    per scalar attribute of the class, and child objects tagged with the attribute that holds them.  [export_t] writes the
+    lines of the class table and recursively the children held in exported attributes; [parse_t] reads every scalar line
+    through the reader's entry for the same key and recursively the child blocks the reader builds objects from.  For every
+    class table, every well-formed tree (classes paired -- the obligations [fields_paired:<Class>]; children in attributes
+    that are exported and filled -- the obligations [containment_edge:<Class>.<attr>]) and field codecs that invert (the
+    string / number / flag / output / fixup theorems above; for the ID lines under preserve_ids: section 14, get_id hands back
+    the number read), parsing the export gives the object back, at any depth and width; hence the second export is the first. *)
+Theorem c06_tree_roundtrip : forall (V T : Type) (dflt : V) (enc : lentry -> list V -> T) (dec : lentry -> T -> V) (tbl : list liteclass),
+  codecs_invert V T enc dec tbl ->
+  forall x : otree V, wf V tbl x -> parse_t V T dflt dec tbl (export_t V T dflt enc tbl x) = x.
+Proof. exact tree_roundtrip. Qed.
+Theorem c06_tree_fixed_point : forall (V T : Type) (dflt : V) (enc : lentry -> list V -> T) (dec : lentry -> T -> V) (tbl : list liteclass),
+  codecs_invert V T enc dec tbl ->
+  forall x : otree V, wf V tbl x ->
+    export_t V T dflt enc tbl (parse_t V T dflt dec tbl (export_t V T dflt enc tbl x)) = export_t V T dflt enc tbl x.
+Proof. exact tree_fixed_point. Qed.
+Theorem c06_containment_edge_meaning : forall tbl p a c, edge_ok tbl ((p, a), c) = true ->
+  exists lp lcc, cls_of tbl p = Some lp /\ cls_of tbl c = Some lcc /\ lite_paired lp = true /\ lite_paired lcc = true /\
+    In a (lc_kids_written lp) /\ In a (lc_kids_read lp).
+Proof. exact edge_ok_sound. Qed.
+Theorem c06_tree_children_not_read_refuted :
+  parse_t nat nat 0%nat tree_ex_dec [ex_solid_deaf; ex_side] (export_t nat nat 0%nat tree_ex_enc [ex_solid_deaf; ex_side] ex_tree)
+    = ONode nat "" "Solid" [("id"%string, 0%nat)] [] /\
+  chain_ok [ex_solid_deaf; ex_side] [(("Solid", "sides"), "Side")]%string ["Solid"; "Side"]%string = false.
+Proof. exact tree_children_not_read_refuted. Qed.
+Example c06_tree_example : wf nat [ex_solid; ex_side] ex_tree /\
+  parse_t nat nat 0%nat tree_ex_dec [ex_solid; ex_side] (export_t nat nat 0%nat tree_ex_enc [ex_solid; ex_side] ex_tree) = ex_tree.
+Proof. split; [exact ex_tree_wf | exact (proj1 tree_example)]. Qed.
